@@ -217,15 +217,21 @@ class NEval:
     def ev_Constant(self, node):
         return node.value
 
+    def to_old(self, x):
+        """Inside old(): an object bound in the current state denotes its pre-state snapshot."""
+        if self.in_old and self.snap is not None and not isinstance(x, ATOMIC) and id(x) in self.snap.memo:
+            return self.snap.memo[id(x)]
+        return x
+
     def ev_Name(self, node):
         n = node.id
         env = self.old_env if self.in_old else self.env
         if n in self.env and n not in self.old_env:
-            return self.env[n]
+            return self.to_old(self.env[n])
         if n in env:
-            return env[n]
+            return self.to_old(env[n])
         if n in self.env:
-            return self.env[n]
+            return self.to_old(self.env[n])
         if n in self.globals:
             return self.globals[n]
         raise SpecRuntimeError(f"unknown name {n}")
@@ -257,6 +263,8 @@ class NEval:
             lo = self.ev(node.slice.lower) if node.slice.lower is not None else 0
             return list(base)[lo:]
         idx = self.ev(node.slice)
+        if base is None:
+            return None         # specs are total: reading through an absent entry is unspecified
         if isinstance(base, dict):
             return _seconds(base[idx]) if idx in base else None
         if isinstance(base, (list, tuple)):
@@ -569,6 +577,12 @@ class NEval:
     def fn_fold_hint(self, node):
         return True
 
+    def fn_prefix(self, node):
+        return list(self.ev(node.args[0]))[:self.ev(node.args[1])]
+
+    def fn_allocated(self, node):
+        raise SkipClause("allocated")
+
     def fn_card_in(self, node):
         return len(set(self.ev(node.args[0])) & set(self.ev(node.args[1])))
 
@@ -593,7 +607,7 @@ def check_call(S, key, func, args, kwargs=None, ghost=None, globals_=None, extra
     roots = list(env.values()) + list(extra_roots)
     objs = reachable(roots)
     env["__universe__"] = objs
-    env["__ghost__"] = dict(ghost or {})
+    env["__ghost__"] = ghost if ghost is not None else {}
     snap = Snapshot((env, ))
     snap.register_originals(objs)
     old_env = snap.copy[0]
